@@ -192,8 +192,7 @@ def run(ctx):
                 if lsteps:
                     lsp_history(ctx, lws, lsteps)
                 shutil.rmtree(lroot, ignore_errors=True)
-            if h < 3:
-                ctx.sample({"workspace": ws.spec, "history": [(s["op"], s["rel"], s["valid"]) for s in steps]})
+            ctx.sample({"workspace": ws.spec, "history": [(s["op"], s["rel"], s["valid"]) for s in steps]})
             ctx.count("histories")
             ctx.count("steps", len(steps))
             shutil.rmtree(root, ignore_errors=True)
